@@ -58,7 +58,7 @@ where
     match sim::decide_split(len, p.sim_min_len(), p.sim_max_len(), &mut sp, migrated) {
         Some(mid) => {
             let (l, r) = p.sim_split_at(mid);
-            let (ra, rb) = sim::join_context(
+            let (ra, rb) = sim::join_context_raw(
                 move |m| helper(l, sp, m, path << 1, start, leaf, combine),
                 move |m| helper(r, sp, m, (path << 1) | 1, start + mid as u64, leaf, combine),
             );
@@ -635,6 +635,70 @@ pub trait ParallelIterator: Sized + Send {
         }
     }
 
+    fn try_fold<T, R, ID, F>(self, identity: ID, fold_op: F) -> TryFold<Self, ID, F>
+    where
+        F: Fn(T, Self::Item) -> R + Sync + Send,
+        ID: Fn() -> T + Sync + Send,
+        R: TryLike<Output = T> + Send,
+        T: Send,
+    {
+        TryFold {
+            base: self,
+            id: Arc::new(identity),
+            f: Arc::new(fold_op),
+        }
+    }
+
+    /// Any `n` items (rayon: the first `n` to arrive). Model: the upstream is
+    /// evaluated under the scheduler, then a decision-drawn subset of size `n` is
+    /// kept, relative order preserved.
+    fn take_any(self, n: usize) -> crate::iter::sources::VecIter<Self::Item> {
+        let all = collect::collect_vec(self);
+        let len = all.len();
+        if n >= len {
+            return crate::iter::sources::VecIter { vec: all };
+        }
+        // choose which to drop: walk once, keep with the right conditional probability
+        let mut keep = vec![false; len];
+        let mut need = n;
+        for i in 0..len {
+            let left = len - i;
+            if need > 0 && crate::sim::choose(left as u64) < need as u64 {
+                keep[i] = true;
+                need -= 1;
+            }
+        }
+        let mut it = keep.into_iter();
+        crate::iter::sources::VecIter {
+            vec: all.into_iter().filter(|_| it.next().unwrap_or(false)).collect(),
+        }
+    }
+
+    fn skip_any(self, n: usize) -> crate::iter::sources::VecIter<Self::Item> {
+        let all = collect::collect_vec(self);
+        let len = all.len();
+        let keep_n = len.saturating_sub(n);
+        let mut keep = vec![false; len];
+        let mut need = keep_n;
+        for i in 0..len {
+            let left = len - i;
+            if need > 0 && crate::sim::choose(left as u64) < need as u64 {
+                keep[i] = true;
+                need -= 1;
+            }
+        }
+        let mut it = keep.into_iter();
+        crate::iter::sources::VecIter {
+            vec: all.into_iter().filter(|_| it.next().unwrap_or(false)).collect(),
+        }
+    }
+
+    fn collect_vec_list(self) -> std::collections::LinkedList<Vec<Self::Item>> {
+        let mut l = std::collections::LinkedList::new();
+        l.push_back(collect::collect_vec(self));
+        l
+    }
+
     fn fold_with<F, T>(self, init: T, fold_op: F) -> FoldWith<Self, T, F>
     where
         F: Fn(T, Self::Item) -> T + Sync + Send,
@@ -679,6 +743,66 @@ pub trait ParallelIterator: Sized + Send {
 // ---------------------------------------------------------------------------
 
 pub trait IndexedParallelIterator: ParallelIterator {
+    /// a0, b0, a1, b1, ... then the rest of the longer one. The upstreams are
+    /// evaluated under the scheduler; the interleaving itself is order-fixed.
+    fn interleave<I>(self, other: I) -> crate::iter::sources::VecIter<Self::Item>
+    where
+        I: IntoParallelIterator<Item = Self::Item>,
+        I::Iter: IndexedParallelIterator<Item = Self::Item>,
+    {
+        let a = collect::collect_vec(self);
+        let b = collect::collect_vec(other.into_par_iter());
+        let mut out = Vec::with_capacity(a.len() + b.len());
+        let (mut ia, mut ib) = (a.into_iter(), b.into_iter());
+        loop {
+            match (ia.next(), ib.next()) {
+                (None, None) => break,
+                (x, y) => {
+                    out.extend(x);
+                    out.extend(y);
+                }
+            }
+        }
+        crate::iter::sources::VecIter { vec: out }
+    }
+
+    fn interleave_shortest<I>(self, other: I) -> crate::iter::sources::VecIter<Self::Item>
+    where
+        I: IntoParallelIterator<Item = Self::Item>,
+        I::Iter: IndexedParallelIterator<Item = Self::Item>,
+    {
+        let a = collect::collect_vec(self);
+        let b = collect::collect_vec(other.into_par_iter());
+        let mut out = vec![];
+        let (mut ia, mut ib) = (a.into_iter(), b.into_iter());
+        loop {
+            match ia.next() {
+                None => break,
+                Some(x) => out.push(x),
+            }
+            match ib.next() {
+                None => break,
+                Some(y) => out.push(y),
+            }
+        }
+        crate::iter::sources::VecIter { vec: out }
+    }
+
+    /// Sequential fold of consecutive chunks of `chunk_size` items, one result per chunk.
+    fn fold_chunks<T, ID, F>(self, chunk_size: usize, identity: ID, fold_op: F) -> crate::iter::sources::VecIter<T>
+    where
+        ID: Fn() -> T + Send + Sync,
+        F: Fn(T, Self::Item) -> T + Send + Sync,
+        T: Send,
+    {
+        assert!(chunk_size != 0, "chunk_size must not be zero");
+        let chunks = collect::collect_vec(self.chunks(chunk_size));
+        let folded = collect::collect_vec(
+            crate::iter::sources::VecIter { vec: chunks }.map(move |c| c.into_iter().fold(identity(), &fold_op)),
+        );
+        crate::iter::sources::VecIter { vec: folded }
+    }
+
     fn len(&self) -> usize {
         self.sim_len()
     }
